@@ -397,6 +397,22 @@ class extract_visitor(NodeVisitor):
         if type(node.ctx) is Load:
             node.flow = self.flow  # type: ignore[attr-defined]
 
+    def visit_IfExp(self, node):
+        # type: (ast.IfExp) -> None
+        flow = self.flow
+        known = set(map(id, flow._names))
+        self.visit(node.test)
+        if self.flow is flow:
+            # the test is evaluated first although the body precedes it in
+            # the text: what it binds (walrus) is visible in the whole expression
+            bound = [n for n in flow._names if id(n) not in known]
+            if bound:
+                for n in bound:
+                    n.location = np(node)
+                flow._names.sort()
+        self.visit(node.body)
+        self.visit(node.orelse)
+
     def visit_NamedExpr(self, node):
         # type: (ast.NamedExpr) -> None
         eend = get_expr_end(node.value)
